@@ -255,14 +255,21 @@ def xinclude_text(ctx):
                     ctx.case(("xinclude-text", text, enc, h))
                     xctx = XmlContext()
                     st, base, _w = hb.parse(inline, h, xctx, AnyHolder, "str", ParserConfig())
-                    p = XmlParser(context=xctx, handler=hb.HANDLERS[h], config=ParserConfig(process_xinclude=True, base_url=main))
-                    try:
-                        obj = p.parse(main, AnyHolder)
-                    except Exception as ex:  # noqa: BLE001
-                        obj = ex
-                    if st != "ok" or obj != base:
-                        ctx.violation(f"XInclude parse=text encoding={enc} ({h}) parses to {repr(obj)[:200]}; the inline document parses to {base!r}",
-                                      {"handler": h, "encoding": enc, "text": text})
+                    import pathlib
+
+                    # three ways to hand the file over: path string + explicit base URL, path string alone, from_path(Path)
+                    # without a base URL (the location of the document is the base of its relative references)
+                    routes = {"parse(str, base_url)": lambda: XmlParser(context=xctx, handler=hb.HANDLERS[h], config=ParserConfig(process_xinclude=True, base_url=main)).parse(main, AnyHolder),
+                              "parse(str)": lambda: XmlParser(context=xctx, handler=hb.HANDLERS[h], config=ParserConfig(process_xinclude=True)).parse(main, AnyHolder),
+                              "from_path(Path)": lambda: XmlParser(context=xctx, handler=hb.HANDLERS[h], config=ParserConfig(process_xinclude=True)).from_path(pathlib.Path(main), AnyHolder)}
+                    for rname, route in routes.items():
+                        try:
+                            obj = route()
+                        except Exception as ex:  # noqa: BLE001
+                            obj = ex
+                        if st != "ok" or obj != base:
+                            ctx.violation(f"XInclude parse=text encoding={enc} ({h}, {rname}) parses to {repr(obj)[:200]}; the inline document parses to {base!r}",
+                                          {"handler": h, "encoding": enc, "text": text, "route": rname})
             finally:
                 shutil.rmtree(d, ignore_errors=True)
 
